@@ -72,6 +72,10 @@ func aimdExpected(limit int, ratio float64) (int, int) {
 func singleDrop(idx int64, r *rand.Rand) {
 	kind := kinds[r.IntN(3)]
 	spec := limgen.Gen(r, kind, limgen.Opts{NoProbe: true})
+	if kind == "vegas" && r.IntN(4) == 0 {
+		spec.Funcs = limgen.VegasFuncs[r.IntN(len(limgen.VegasFuncs))]
+		rt.Count("vegas_cases_with_caller_supplied_functions", 1)
+	}
 	l := spec.New(nil, "c06")
 	hist := prefix(r, l, r.IntN(150))
 	raised := false
@@ -125,6 +129,10 @@ func bound(spec limgen.Spec, e0 int) int {
 func sustained(idx int64, r *rand.Rand) {
 	kind := kinds[r.IntN(3)]
 	spec := limgen.Gen(r, kind, limgen.Opts{Bounded: true})
+	if kind == "vegas" && r.IntN(4) == 0 {
+		spec.Funcs = limgen.VegasFuncs[r.IntN(len(limgen.VegasFuncs))] // every one of them steps down by at least 1 per drop
+		rt.Count("vegas_cases_with_caller_supplied_functions", 1)
+	}
 	l := spec.New(nil, "c06")
 	hist := prefix(r, l, r.IntN(120))
 	e0 := l.EstimatedLimit()
